@@ -53,6 +53,9 @@ class Ref:
     def status(self, c, now, strict_dead_at_boundary):
         """'live' | 'dead' | 'edge' """
         it = self.items[c]
+        if it.get('seen_dead') is not None and now >= it['seen_dead'] and not it.get('maybe'):
+            # at the open instant now == expiry a look-up already reported this item expired: from then on it IS expired
+            return 'dead'
         if it.get('maybe'):
             # possibly evicted by the size limit: present or absent are both acceptable
             return 'edge'
@@ -74,6 +77,7 @@ def upd(it, new):
     it.update(new)
     it['k'] = k
     it.pop('maybe', None)
+    it.pop('seen_dead', None)
 
 
 def fmt_flags(val, et, tg, it):
@@ -209,6 +213,8 @@ def step(ref, m, op, res, now, judge):
         et, tg = int(op.get('et', 0)), int(op.get('tg', 0))
         miss = {'get': default_flags(et, tg), 'pop': default_flags(et, tg), 'getitem': '!KeyError',
                 'read': '!KeyError', 'contains': 'F', 'delete': 'F', 'delitem': '!KeyError', 'touch': 'F'}[m]
+        if st == 'edge' and res == miss and not evictable and c is not None and not items[c].get('maybe') and m in ('get', 'getitem', 'contains'):
+            items[c]['seen_dead'] = now
         if st in ('absent', 'dead'):
             if judge and res != miss:
                 return 'look-up of an absent or expired key must report a miss'
@@ -266,6 +272,7 @@ def step(ref, m, op, res, now, judge):
             if res == 'T':
                 it['exp'] = None if op.get('ttl') is None else now + op['ttl']
                 it.pop('maybe', None)
+                it.pop('seen_dead', None)
             elif evictable and st == 'live':
                 it['maybe'] = True
             return None
